@@ -246,7 +246,7 @@ func init() {
 				if funcID(calleeObj(&c.Call)) == "sync.(Map).Store" && isFieldOf(c.Call.Args[0], adapterT, "resp") {
 					store = c
 				}
-				if callIs(&c.Call, "~/tars.(AdapterProxy).Send") {
+				if sc := c.Call.StaticCallee(); sc != nil && enqueuesRequest(sc, 4) {
 					send = c
 				}
 			})
@@ -398,4 +398,38 @@ func init() {
 				r.OKLookup("tars", "who-may-send on chan *ResponsePacket", fn.Pos(), "only Recv sends on reply channels")
 			}
 		}})
+}
+
+// enqueuesRequest: fn (or a static callee within tars / tars/transport, up to depth d) sends on
+// TarsClient.sendQueue, i.e. hands a request to the connection's sender.
+func enqueuesRequest(fn *ssa.Function, d int) bool {
+	if fn == nil || fn.Blocks == nil || d < 0 {
+		return false
+	}
+	if fn.Pkg == nil || !(strings.HasSuffix(fn.Pkg.Pkg.Path(), "/tars") || strings.HasSuffix(fn.Pkg.Pkg.Path(), "/tars/transport")) {
+		return false
+	}
+	hit := false
+	eachInstr(fn, func(in ssa.Instruction) {
+		if hit {
+			return
+		}
+		switch x := in.(type) {
+		case *ssa.Send:
+			if strings.HasSuffix(pathOf(x.Chan), ".sendQueue") {
+				hit = true
+			}
+		case *ssa.Select:
+			for _, st := range x.States {
+				if st.Dir == types.SendOnly && strings.HasSuffix(pathOf(st.Chan), ".sendQueue") {
+					hit = true
+				}
+			}
+		case *ssa.Call:
+			if sc := x.Call.StaticCallee(); sc != nil && sc != fn && enqueuesRequest(sc, d-1) {
+				hit = true
+			}
+		}
+	})
+	return hit
 }
